@@ -50,10 +50,10 @@ theorem C12_reader_buffered (cfg : Cfg) (c : CC α) (n : Int) (hn : n ≤ (c.inp
   have h : c.waitRead n = none := by simp [CC.waitRead, hn]
   simp [CC.call, h]
 
+omit [DecidableEq α] in
 /-- After the peer closed, the remaining buffered bytes can still be read: on a connection without callbacks (one that
 is read through its Reader) neither the hang-up nor the user's own Close after it drops buffered input - `closeBuffer`
 recycles the input buffer only when it is empty.  Whatever was buffered when the peer closed is buffered afterwards. -/
-omit [DecidableEq α] in
 theorem C12_peer_close_keeps_buffered (c : CC α) (hcb : c.cb = false) (m : Mode) (hm : m = .peer ∨ m = .peerThenUser) :
     (c.closeBy m).input.length = c.input.length ∧ (c.input.length ≠ 0 → (c.closeBy m).input = c.input) := by
   rcases hm with h | h <;> subst h
